@@ -6,11 +6,11 @@ Import ListNotations.
 Inductive c08_case :=
 | KSeq (c : c08_seq_case)        (* single-threaded genRequestID sequence from a set counter: must equal the model exactly *)
 | KMt (c : c08_mt_case)          (* concurrent batch: what the theorems conclude + reachability window *)
-| KTrace (c : c08_trace_case).   (* recorded call/packet/outcome trace: must be a good run of the pending-table machine *)
+| KTrace (c : c08_mtrace_case).  (* recorded call/packet/outcome trace, per connection: must be a good run of the product of pending-table machines *)
 
 Definition c08_check (c : c08_case) : bool :=
   match c with
   | KSeq x => c08_seq_check (Z.of_N c_maxInt32) x
   | KMt x => c08_mt_check (Z.of_N c_maxInt32) x
-  | KTrace x => accepts x
+  | KTrace x => maccepts x
   end.
